@@ -145,7 +145,7 @@ func checkHandleConn(c *Ctx, prop string, wantLabel, wantAuth bool) {
 		n := c.flowMay(x, prop+"/stream/label", "stream path: the stream reader (and everything after it) is reached only if the label header was removed without error and the received label equals the configured one (inbound check delegated: only without a label header)",
 			func(e *gea.Effect) bool {
 				switch {
-				case strings.HasPrefix(e.Class, "CALL:Log"), e.Class == "CALL:RemoveLabelHeaderFromStream", e.Class == "CONNCLOSE", e.Class == "DEADLINE":
+				case strings.HasPrefix(e.Class, "CALL:Log"), e.Class == "CALL:RemoveLabelHeaderFromStream", e.Class == "CONNCLOSE", strings.HasPrefix(e.Class, "DEADLINE"):
 					return false
 				}
 				return true
